@@ -55,9 +55,11 @@ type TaskP struct {
 	Err      bool   `json:"err,omitempty"`
 	Pred     *PredP `json:"pred,omitempty"`
 	Fallback bool   `json:"fb,omitempty"`
-	Instr    bool   `json:"instr,omitempty"`
-	Form     int    `json:"form,omitempty"`
-	WrapFn   bool   `json:"wrapfn,omitempty"`
+	// FBNil: every FallbackWith value is the literal nil (all outputs have nil-able types).
+	FBNil  bool `json:"fb_nil,omitempty"`
+	Instr  bool `json:"instr,omitempty"`
+	Form   int  `json:"form,omitempty"`
+	WrapFn bool `json:"wrapfn,omitempty"`
 	// AutoInstr is set by the printer: with -auto-instrument the generator
 	// instruments exactly the tasks listed after cff.InstrumentFlow.
 	AutoInstr bool `json:"auto_instr,omitempty"`
@@ -204,6 +206,10 @@ func OutVal(prog, task, o int, args []uint64) uint64 {
 	}
 	return h
 }
+
+// ErrVal is what a failing task returns next to its error (a partial result,
+// a stale cache entry): nobody may ever see it.
+const ErrVal uint64 = 0x0bad0bad0bad0e01
 
 // FBVal is the FallbackWith value of output o of task t.
 func FBVal(prog, task, o int) uint64 {
